@@ -15,6 +15,9 @@ type Case struct {
 	Kind   string        `json:"kind"` // grid | float | recv
 	Polys  [][][]vkit.P2 `json:"polys"`
 	AsPoly bool          `json:"as_polygon,omitempty"` // a single polygon passed as geom.Polygon instead of MultiPolygon
+	// Member k > 0 (kind recv): the receiver is member k-1 of the multi-polygon argument ITSELF (the same value, not a
+	// copy): Outside exactly when one of its vertices is Outside of the whole argument by the even-odd rule
+	Member int `json:"member,omitempty"`
 	Box    bool          `json:"box,omitempty"`        // P is the *Bounds of Polys' first ring's first two vertices
 	Pt     vkit.P2       `json:"pt"`
 	// ScaleExp: every coordinate of a grid/recv case is multiplied by 2^ScaleExp before it is handed to geom (exact in
@@ -85,6 +88,9 @@ func gen(t *rapid.T) Case {
 			g := vkit.GenGJ(t, vkit.GeomOpts{Types: []string{"MultiPoint", "LineString", "MultiLineString", "Polygon"},
 				MinMembers: 0, MaxMembers: 3, MaxPts: 5, Coord: hg, ExactGrid: true})
 			c.Recv = &g
+			if rapid.IntRange(0, 5).Draw(t, "member") == 3 {
+				c.Member = rapid.IntRange(1, 4).Draw(t, "memberk")
+			}
 			if rapid.IntRange(0, 3).Draw(t, "longrecv") == 2 {
 				// a receiver of 15 to 257 vertices - next to the multiples of 16, 32 and 64 at which code that looks at a long
 				// line in strides would change its step - all of them Inside or OnEdge except (two cases in three) exactly one,
@@ -296,6 +302,15 @@ func run(c Case) (v vkit.Verdict) {
 		g, recvSame := vkit.SharedGeom(rs)
 		wantOutside := false
 		verts := c.Recv.Flatten()
+		if mp, ok := P.(geom.MultiPolygon); ok && c.Member > 0 && len(mp) > 0 {
+			k := (c.Member - 1) % len(mp)
+			g, recvSame = mp[k], func() string { return "" }
+			verts = nil
+			for _, r := range c.Polys[k] {
+				verts = append(verts, r...)
+			}
+			v.Class("receiver_is_a_member_of_the_argument")
+		}
 		for _, q := range verts {
 			if vkit.PIP(q, ref) == vkit.Outside {
 				wantOutside = true
